@@ -20,6 +20,7 @@ package main
 import (
 	"fmt"
 	"go/ast"
+	"go/constant"
 	"go/token"
 	"go/types"
 	"strings"
@@ -256,6 +257,82 @@ func ruleNextIDMax(p *Prog, r *Res, rule string) {
 				return true
 			})
 		}
+		// offsetOf: e is MaxStreamID() + k for a constant k (following locals with one definition)
+		var offsetOf func(e ast.Expr, depth int) (int64, bool)
+		offsetOf = func(e ast.Expr, depth int) (int64, bool) {
+			e = ast.Unparen(e)
+			if depth > 4 {
+				return 0, false
+			}
+			switch y := e.(type) {
+			case *ast.CallExpr:
+				if p.Callee(f.Pkg, y) == maxM {
+					return 0, true
+				}
+				if tv, ok := info.Types[y.Fun]; ok && tv.IsType() && len(y.Args) == 1 {
+					return offsetOf(y.Args[0], depth+1)
+				}
+			case *ast.BinaryExpr:
+				if y.Op == token.ADD || y.Op == token.SUB {
+					for side, pair := range [2][2]ast.Expr{{y.X, y.Y}, {y.Y, y.X}} {
+						if side == 1 && y.Op == token.SUB {
+							break
+						}
+						if tv, ok := info.Types[pair[1]]; ok && tv.Value != nil {
+							if c, exact := constant.Int64Val(constant.ToInt(tv.Value)); exact {
+								if k, ok := offsetOf(pair[0], depth+1); ok {
+									if y.Op == token.SUB {
+										return k - c, true
+									}
+									return k + c, true
+								}
+							}
+						}
+					}
+				}
+			case *ast.Ident:
+				o := info.Uses[y]
+				if o == nil || !derived[o] {
+					return 0, false
+				}
+				var def ast.Expr
+				nDef := 0
+				ast.Inspect(f.Body(), func(z ast.Node) bool {
+					switch s := z.(type) {
+					case *ast.AssignStmt:
+						if len(s.Lhs) == len(s.Rhs) {
+							for i, l := range s.Lhs {
+								if identObj(info, l) == o {
+									nDef++
+									def = s.Rhs[i]
+								}
+							}
+						}
+					case *ast.IncDecStmt:
+						if identObj(info, s.X) == o {
+							nDef += 2
+						}
+					}
+					return true
+				})
+				if nDef == 1 {
+					return offsetOf(def, depth+1)
+				}
+			}
+			return 0, false
+		}
+		// guardKeeps: when the update is NOT made the target already exceeds the file's largest id.
+		// `target < M+k` not taken means target >= M+k: needs k >= 1; `target <= M+k` not taken means target > M+k: k >= 0.
+		guardKeeps := func(cand ast.Expr, strict bool) (bool, bool) {
+			k, ok := offsetOf(cand, 0)
+			if !ok {
+				return true, false
+			}
+			if strict {
+				return k >= 1, true
+			}
+			return k >= 0, true
+		}
 		inspectParents(f.Body(), func(x ast.Node, parents []ast.Node) bool {
 			as, ok := x.(*ast.AssignStmt)
 			if !ok || as.Tok == token.DEFINE || len(as.Lhs) != len(as.Rhs) {
@@ -326,10 +403,16 @@ func ruleNextIDMax(p *Prog, r *Res, rule string) {
 				})
 				// monotone: guarded by a comparison that mentions the target and a derived value, or max()
 				monotone := false
+				offByOne := ""
+				if k, ok := offsetOf(as.Rhs[i], 0); ok && k < 1 {
+					offByOne = "the value assigned is the largest id of the file itself, not the one after it"
+				}
 				if c, ok := ast.Unparen(as.Rhs[i]).(*ast.CallExpr); ok && isBuiltin(info, c, "max") {
 					for _, a := range c.Args {
 						if exprString(p.Fset, a) == target {
 							monotone = true
+						} else if k, ok := offsetOf(a, 0); ok && k < 1 {
+							offByOne = "max() is taken with the largest id of the file itself, not the one after it"
 						}
 					}
 				}
@@ -351,6 +434,54 @@ func ruleNextIDMax(p *Prog, r *Res, rule string) {
 						xs, ys := exprString(p.Fset, be.X), exprString(p.Fset, be.Y)
 						if (xs == target && fromMax(be.Y) && (be.Op == token.LSS || be.Op == token.LEQ)) || (ys == target && fromMax(be.X) && (be.Op == token.GTR || be.Op == token.GEQ)) {
 							monotone = true
+							cand := be.Y
+							if ys == target {
+								cand = be.X
+							}
+							if keeps, known := guardKeeps(cand, be.Op == token.LSS || be.Op == token.GTR); known && !keeps {
+								offByOne = "`" + exprString(p.Fset, ifs.Cond) + "` is false when the next id EQUALS the largest id of the file"
+							}
+						}
+					}
+				}
+				// the same guard as an early `continue`: `if candidate < target { continue }; target = candidate + 1`
+				for pi, par := range parents {
+					blk, ok := par.(*ast.BlockStmt)
+					if !ok || !within(blk, loop.Body) && blk != loop.Body {
+						continue
+					}
+					var inner ast.Node = as
+					if pi+1 < len(parents) {
+						inner = parents[pi+1]
+					}
+					for _, st := range blk.List {
+						if st == inner {
+							break
+						}
+						ifs, ok := st.(*ast.IfStmt)
+						if !ok || ifs.Else != nil || len(ifs.Body.List) == 0 {
+							continue
+						}
+						br, ok := ifs.Body.List[len(ifs.Body.List)-1].(*ast.BranchStmt)
+						if !ok || br.Tok != token.CONTINUE || br.Label != nil {
+							continue
+						}
+						be, ok := ast.Unparen(ifs.Cond).(*ast.BinaryExpr)
+						if !ok {
+							continue
+						}
+						xs, ys := exprString(p.Fset, be.X), exprString(p.Fset, be.Y)
+						// skipped when the candidate is below the target
+						if (ys == target && fromMax(be.X) && (be.Op == token.LSS || be.Op == token.LEQ)) || (xs == target && fromMax(be.Y) && (be.Op == token.GTR || be.Op == token.GEQ)) {
+							monotone = true
+							cand := be.X
+							if xs == target {
+								cand = be.Y
+							}
+							// skipped on `M+k < target`: target > M+k, k >= 0; on `M+k <= target`: target >= M+k, k >= 1
+							if keeps, known := guardKeeps(cand, be.Op == token.LEQ || be.Op == token.GEQ); known && !keeps {
+								offByOne = "`" + exprString(p.Fset, ifs.Cond) + "` skips the file when the next id EQUALS its largest id"
+							}
 						}
 					}
 				}
@@ -359,6 +490,8 @@ func ruleNextIDMax(p *Prog, r *Res, rule string) {
 					r.Bad(rule, key, p.Pos(as), "the scan for the largest id in use ranges over "+exprString(p.Fset, loop.X)+", not over the whole reader list: an id that only occurs in a skipped file can be handed out a second time")
 				case earlyExit != "":
 					r.Bad(rule, key, p.Pos(as), "the scan for the largest id in use can stop early ("+earlyExit+"): an id that only occurs in a later file can be handed out a second time")
+				case monotone && offByOne != "":
+					r.Bad(rule, key, p.Pos(as), "the update is off by one: "+offByOne+" — the next connection is given the id of a stream that exists")
 				case !monotone:
 					r.Bad(rule, key, p.Pos(as), "the next id is overwritten with the value of the file at hand without comparing it with what earlier files gave (no `target < candidate` guard, no max()): the last file wins, not the largest id")
 				default:
